@@ -5,3 +5,4 @@ import RpylibModel.Model.Samplers.Bst
 import RpylibModel.Model.Samplers.Huffman
 import RpylibModel.Model.Samplers.Table
 import RpylibModel.Model.Samplers.Adapted
+import RpylibModel.Model.Samplers.AdaptedNd
